@@ -153,7 +153,7 @@ def run(tier, seed):
                     'feasibility_queries': res['queries'], 'violations': len(res['violations']), 'query_errors': res.get('query_errors')})
         for v in res['violations']:
             ctx.verdict('sat')
-            sig = f"depquery:{v['query']}:{res['case']}:{v['variable']}"
+            sig = f"depquery:{v['query']}:{res['case'].replace('~case', '')}:{v['variable'].lower()}"
             ctx.candidate(sig, f"{res['case']}: {v['query']} at {v['at']} does not report '{v['variable']}' although on input "
                           f"{dict(list(v['model'].items())[:6])} a written element is read later without being overwritten",
                           {'case': res['case'], 'sizes': res['sizes'], **v})
